@@ -472,6 +472,10 @@ qb_ipc_us_recv_at_most(struct qb_ipc_one_way *one_way,
 	if (timeout == -1) {
 		time_to_wait = 1000;
 	}
+	if (len < sizeof(struct qb_ipc_request_header)) {
+		/* the header is looked at in the caller's buffer */
+		return -EMSGSIZE;
+	}
 
 	qb_sigpipe_ctl(QB_SIGPIPE_IGNORE);
 
